@@ -315,6 +315,17 @@ func (p *jPoint) goDims() map[string]interface{} {
 	return m
 }
 
+// numVals: the numeric values the database sees (a junk value of the same name replaces the number, as in goVals)
+func (p *jPoint) numVals() map[string]int64 {
+	m := map[string]int64{}
+	for k, v := range p.Vals {
+		if _, junk := p.Junk[k]; !junk {
+			m[k] = v
+		}
+	}
+	return m
+}
+
 func (p *jPoint) goVals() map[string]interface{} {
 	m := map[string]interface{}{}
 	for k, v := range p.Vals {
